@@ -37,7 +37,11 @@ def main():
             mod.run(res)
     checker = ("make -C /verif all && coqc -Q theories SV theories/Properties/%s.v "
                "(Print Assumptions per theorem; forbidden-token grep over coq/theories)" % args.prop)
-    code = fw.finish(res, proof_info, build_ok, build_log, forbidden, time.time() - t0, checker)
+    chk = None
+    if build_ok and args.tier == "thorough" and not args.replay:
+        chk = fw.run_coqchk(args.prop)
+        checker += " && coqchk -silent -o -Q theories SV SV.Properties.%s" % args.prop
+    code = fw.finish(res, proof_info, build_ok, build_log, forbidden, time.time() - t0, checker, chk)
     sys.exit(code)
 
 
